@@ -108,6 +108,11 @@ func ReadDataType(source io.Reader, version primitive.ProtocolVersion) (decoded 
 			return Uuid, nil
 		case primitive.DataTypeCodeVarchar:
 			return Varchar, nil
+		case primitive.DataTypeCodeText:
+			// 0x000A is defined by protocol v2 only, where text is an alias of varchar
+			if version <= primitive.ProtocolVersion2 {
+				return Varchar, nil
+			}
 		case primitive.DataTypeCodeVarint:
 			return Varint, nil
 		case primitive.DataTypeCodeTimeuuid:
